@@ -10,6 +10,7 @@ TRUSTED_BASE = [
 
 BRANCH_NAMES = {
     'observe': ['first_round_empty', 'no_votes', 'votes', 'error', 'panic'],
+    'mercobserve': ['v2_v4_observation', 'v1_observation', 'error', 'panic', 'fee', 'fee_panic'],
     'reportsflow': ['no_reports', 'reports', 'error', 'panic'],
     'mercagg': ['timestamp', 'price_ok', 'price_err', 'fee_ok', 'fee_err', 'maxfints_ok', 'maxfints_err', 'maxfinblock_ok',
                 'maxfinblock_err', 'status_ok', 'status_err', 'latestblock_ok', 'latestblock_err'],
@@ -64,8 +65,13 @@ PROPS = {
     ),
     'C08': dict(
         level='proof',
-        projections=[dict(name='mercagg', n_quick=1600, n_thorough=30000), dict(name='mercreport', spec_index=4, n_quick=250, n_thorough=3000)],
-        rule='mercagg: every vote table / order type of n<=4 (thorough 5) observations over {1,2,3,invalid} for each of the nine '
+        projections=[dict(name='mercagg', n_quick=1600, n_thorough=30000), dict(name='mercreport', spec_index=4, n_quick=250, n_thorough=3000),
+                     dict(name='mercobserve', spec_index=1, n_quick=800, n_thorough=20000)],
+        rule='mercobserve: the real MercuryPlugin.Observation of v1-v4 (built through the real factories, scripted data source: value or '
+             'error per field, values outside int192, missing-price marker, zero prices, crossed quotes, malformed block lists; base fees of '
+             'either sign and many exponents incl. the one that makes decimal.QuoRem panic; with/without previous report) and '
+             'mercury.CalculateFee alone (rounding ties, negative quotients): the model must reproduce the bytes. '
+             'mercagg: every vote table / order type of n<=4 (thorough 5) observations over {1,2,3,invalid} for each of the nine '
              'consensus functions (f=1), then structured random cases f in 1..3, 2f+1..3f+1 observations, honest values near a base, '
              'faulty values 0, +-2^k, -1.., invalid flags, forked/invented blocks, deprecated current-block fields; every case also run on a '
              'random permutation of the observation list. Distinct by SHA-1 of the input.',
@@ -73,8 +79,16 @@ PROPS = {
                     'two valid values of correct observers when those outnumber the faulty valid ones; max-finalized timestamp / block number, '
                     'market status and latest block are values reported identically by >= f+1 observers (hence by a correct one when <= f are '
                     'faulty), for every map iteration order; fewer than f+1 usable values give an error. The models are compared with the '
-                    'exported Go functions on generated cases inside Coq and the predicate is evaluated on the Go results.',
-        assumptions=['sort.Slice returns a sorted permutation (insertion sort modelled, exact for n<=12; integer keys, so ties are identical)'],
+                    'exported Go functions on generated cases inside Coq and the predicate is evaluated on the Go results. "A value from a correct '
+                    'observer" is grounded in the code a correct observer runs: MercuryObserve.v models MercuryPlugin.Observation (v1-v4), '
+                    'mercury.CalculateFee and proto.Marshal of the observation messages (byte-exact against the real functions, projection '
+                    'mercobserve); C08_correct_observation_is_counted proves every correct node parses a correct node\'s bytes as exactly the '
+                    'sender\'s data-source values, and C08_consensus_benchmark_between_data_sources / _link_fee_between_computed_fees / '
+                    '_timestamp_between_clocks state the honest-range theorems end to end, from data-source values and clocks of the correct '
+                    'senders plus arbitrary bytes from the others to the consensus value.',
+        assumptions=['sort.Slice returns a sorted permutation (insertion sort modelled, exact for n<=12; integer keys, so ties are identical)',
+                     'the wall clock (time.Now) is an input of the Observation model: the correspondence hands the model the second the implementation used',
+                     'data sources return typed values (int64 / uint32 / *big.Int non-nil): ds_typed'],
         level_text='Coq theorems for all lists/f/adversaries about the modelled Mercury consensus functions (medians in the honest range, '
                    'f+1-agreement selectors with an honest witness, errors below f+1); models tied to mercury.GetConsensus*, '
                    'v1.GetConsensus*, v4.GetConsensusMarketStatus by differential testing.',
@@ -332,7 +346,7 @@ PROPS['C17'] = dict(
 BRANCH_NAMES['nopanic'] = ['validate', 'outcome', 'reports', 'observation', 'mercury', 'decoders', 'evm-nil-values', 'panics']
 PROPS['C11'] = dict(
     level='proof',
-    projections=[dict(name='reportsflow', spec_index=1, n_quick=400, n_thorough=10000), dict(name='observe', spec_index=1, n_quick=300, n_thorough=8000), dict(name='nopanic', spec_index=1, n_quick=3000, n_thorough=100000),
+    projections=[dict(name='reportsflow', spec_index=1, n_quick=400, n_thorough=10000), dict(name='observe', spec_index=1, n_quick=300, n_thorough=8000), dict(name='mercobserve', spec_index=1, n_quick=800, n_thorough=20000), dict(name='nopanic', spec_index=1, n_quick=3000, n_thorough=100000),
                  dict(name='evmcodec', spec_index=3, strict_index=4, n_quick=1500, n_thorough=40000)],
     rule="nopanic: under recover(): ValidateObservation, Outcome (observations first filtered by the real ValidateObservation; previous outcome "
          "random / structure-aware mutated / valid with missing aggregates; retirement report with and without channels), Reports (telemetry "
